@@ -1,7 +1,8 @@
 (* Threaded writer: /repo/src/threaded_writer.c (jls_twr_*: producer API, msg_send /
    msg_send_inner, flush tickets, close, jls_twr_run consumer loop) over
    /repo/src/backend_posix.c (msg_mutex, process_mutex, event flag = mutex + condition + flag,
-   thread join, jls_bkt_sleep_ms, jls_now) and the concrete ring buffer of MrbModel.v.
+   thread join, jls_bkt_sleep_ms, jls_now) and the concrete ring buffer of MrbModel.v
+   (jls_mrb_alloc as it is in /repo now: MrbModel.alloc_fixed).
    Definitions only; proofs are in TwrProofs.v.
 
    Small-step interleaving semantics.  Control locations are exactly the calls at which the
@@ -253,7 +254,7 @@ Definition tw_pstep (fx : bool) (s : tw_state) (i : nat) (p : tw_pthread) : opti
     if tw_free (tw_mM s) then
       let s1 := tw_log (TwEvL t 0) (tw_set_mM s (Some t)) in
       let sz := len (tw_sd_msg c) in
-      match alloc (tw_q s) sz with
+      match alloc_fixed (tw_q s) sz with
       | Fault f => Some (tw_set_fault s (Some f))
       | Ok (q1, None) => fin (tw_log (TwEvAlloc t sz None) (tw_set_q s1 q1), tw_with_pc p (TwPSendUnlock c false))
       | Ok (q1, Some a) =>
@@ -429,12 +430,9 @@ Definition tw_cdone (s : tw_state) : bool :=
 Definition tw_unprocessed (s : tw_state) : list msg :=
   if tw_cdone s then tl (abs (tw_q s)) else abs (tw_q s).
 
-(* programs the theorems are about: every message the queue can ever hold is outside the
-   defect class of C08 (size within 8 bytes of the capacity), incl. the 40-byte FLUSH/CLOSE messages *)
-Definition tw_call_ok (cap : N) (c : tw_call) : Prop :=
-  match c with TwCSend k body => len (tw_user_msg k body) + 8 <= cap \/ cap < len (tw_user_msg k body) | _ => True end.
-Definition tw_wf (cap : N) (progs : list (list tw_call)) : Prop :=
-  48 <= cap /\ cap <= 2147483648 /\ Forall (Forall (tw_call_ok cap)) progs.
+(* configurations the theorems are about: a queue that can hold the 40-byte FLUSH/CLOSE messages
+   (jls_mrb_alloc refuses sizes above capacity - 8), capacity at most 2^31 (C08) *)
+Definition tw_wf (cap : N) (progs : list (list tw_call)) : Prop := 48 <= cap /\ cap <= 2147483648.
 
 (* ---- the witness of the close hang (C07): capacity 128, one producer ----
    user_data of 60+... bytes and a second one fill the queue so that a 40-byte message does not fit;
@@ -443,3 +441,12 @@ Definition tw_hang_prog : list (list tw_call) :=
   [[TwCSend TwMkUser (repeat 7 59); TwCSend TwMkUser (repeat 8 19); TwCClose]].
 Definition tw_hang_sched : list tw_dec :=
   map TwDStep (repeat (TwTProd 0) 14) ++ [TwDTick 5001] ++ [TwDStep (TwTProd 0)] ++ map TwDStep (repeat TwTCons 15).
+
+(* ---- a complete run (example for the theorem hypotheses): capacity 128, producer 0 = [flush; user_data 60; close],
+   producer 1 = [omit]; every thread runs to its next blocking point in turn ---- *)
+Definition tw_ex_prog : list (list tw_call) :=
+  [[TwCFlush; TwCSend TwMkUser (repeat 7 59); TwCClose]; [TwCSend TwMkOmit (repeat 0 39)]].
+Definition tw_ex_sched : list tw_dec :=
+  let a := TwDStep (TwTProd 0) in let b := TwDStep (TwTProd 1) in let c := TwDStep TwTCons in
+  repeat a 9 ++ repeat c 11 ++ repeat b 6 ++ repeat c 10 ++ [TwDTick 10] ++ repeat a 10 ++ repeat c 10 ++
+  [TwDTick 10] ++ repeat a 6 ++ repeat c 8 ++ [a].
